@@ -106,6 +106,9 @@ class Canon(object):
                 if d is not None:
                     return P.const(1 if d else 0, "int")
                 c = args[0]
+                if isinstance(c, BoolOp) and c.op == "not" and len(c.args) == 1:
+                    # [not x] = 1 - [x] (x may be a comparison that nan makes false: kept as it is)
+                    return T.p_add(P.const(1, "int"), P.atom(App("ind", (c.args[0],)), "int"), -1)
                 nc = mk_not(c)
                 if not (isinstance(nc, BoolOp) and nc.op == "not") and nc.sortkey() < c.sortkey():
                     return T.p_add(P.const(1, "int"), P.atom(App("ind", (nc,)), "int"), -1)
